@@ -32,6 +32,7 @@ type Prog struct {
 	declCache map[types.Object]*FuncInfo
 	flowCache map[ast.Node]*Flow
 	errWrap   map[*types.Func]int
+	ren       *renameState
 }
 
 // the one package that is allowed to fail to load (cgo header missing in the sandbox)
@@ -189,6 +190,7 @@ func newCheck(id string, p *Prog, tier string) *Check {
 	if tier == "thorough" {
 		d = 6
 	}
+	theProg = p
 	return &Check{ID: id, P: p, Tier: tier, Depth: d, rules: map[string]*RuleInfo{}, funcs: map[string]bool{}}
 }
 
@@ -300,6 +302,18 @@ func (c *Check) finish(verifDir string, findings []Finding, seed int, t0 time.Ti
 	for _, lp := range loadProblems {
 		c.Fail("load", lp, token.NoPos, lp)
 	}
+	// anchors that were resolved through the rename index are listed with the exceptions
+	if c.P != nil && c.P.ren != nil {
+		for _, n := range c.P.ren.notes {
+			dup := false
+			for _, e := range c.excepts {
+				dup = dup || e == n
+			}
+			if !dup {
+				c.Except(n)
+			}
+		}
+	}
 	// floors
 	c.Rule("floor", "every rule matched at least its confirmed number of instances (a rule matching nothing passes vacuously)", 0)
 	for _, id := range c.order {
@@ -385,6 +399,9 @@ func (c *Check) finish(verifDir string, findings []Finding, seed int, t0 time.Ti
 	}
 
 	evDir := filepath.Join(verifDir, "evidence")
+	if len(c.ID) != 3 || c.ID[0] != 'C' {
+		evDir = os.TempDir() // debug pseudo-properties (DUMP, ANCHORS, …) leave nothing in the evidence directory
+	}
 	os.MkdirAll(evDir, 0o755)
 	repPath := filepath.Join(evDir, c.ID+".report.txt")
 	if nviol > 0 {
